@@ -33,7 +33,7 @@ RULE = ('histories of 4-14 (quick) / 5-40 (thorough) simulated commands (put, re
 ASSUMPTIONS = ['file names in histories are valid UTF-8 (the non-UTF-8 case belongs to C16/C19)',
                'no populated insecure .Trash/$uid in these worlds (C08 covers them)',
                'entries of the home trash carry absolute Paths (relative ones belong to C20)']
-PROBES = ['trash-dir-with-hundreds-of-entries', 'put-added', 'restore-removed', 'rm-removed', 'empty-removed', 'foreign-added', 'list-nonempty',
+PROBES = ['trash-dir-with-hundreds-of-entries', 'trashed-on-a-volume-the-listing-leaves-out', 'put-added', 'restore-removed', 'rm-removed', 'empty-removed', 'foreign-added', 'list-nonempty',
           'restored-then-trashed-again', 'volume-entry', 'boundary-ambiguous']
 TECHNIQUE = 'deterministic simulation of command histories against an executable bag model (refinement check after every step)'
 LEVEL_TEXT = ('seeded histories of the five real commands on a simulated multi-volume world; after each step an independent '
@@ -128,7 +128,8 @@ def gen(rng):
                         s[1] = h + suffix + tag + t
             procs.append({'foreign': fs, 'advance': adv})
     return {
-        'world': {'mounts': L['mounts'], 'steps': steps},
+        # (5 % of the worlds: a volume with a file-system type that the partition listing leaves out)
+        'world': dict({'mounts': L['mounts'], 'steps': steps}, **({'unlisted': [rng.choice(L['vols'])]} if L['vols'] and rng.random() < 0.05 else {})),
         'procs': procs,
         'dirsalt': rng.randrange(1 << 30),
         'clock': {'start': start.strftime('%Y-%m-%dT%H:%M:%S.%f'), 'utcoffset_s': rng.choice([0, 3600, -18000, 19800, 34200, 50400, -43200]),
@@ -157,7 +158,16 @@ def check(sim, case, st):
     snap0 = sim.snap()
     if len(case['world']['steps']) > 400:
         st.probes['trash-dir-with-hundreds-of-entries'] += 1
-    bag0 = OR.scan(sim, snap0, env, uid, mounts)
+    hidden_vols = set(case['world'].get('unlisted') or [])
+
+    def on_hidden(tdir):
+        return bool(hidden_vols) and ML.volume_of(mounts, tdir) in hidden_vols and not tdir.startswith(env.get('HOME', '/nonexistent') + '/.')
+
+    def scan(snapshot):
+        # what the readers can see: the trash directories of volumes whose file-system type the partition listing leaves out
+        # are not visited by them (known finding, reported separately below)
+        return [e for e in OR.scan(sim, snapshot, env, uid, mounts) if not on_hidden(e.tdir)]
+    bag0 = scan(snap0)
     trail = []
     changes = 0
     restored_locs = set()
@@ -182,7 +192,7 @@ def check(sim, case, st):
             st.sims += 1
             st.ops += r.nops
         snap1 = sim.snap()
-        bag1 = OR.scan(sim, snap1, env, uid, mounts)
+        bag1 = scan(snap1)
         removed, added = OR.removed_added(bag0, bag1)
         if removed or added:
             changes += 1
@@ -198,6 +208,13 @@ def check(sim, case, st):
             if not OP.related(named):
                 outs, _probs = OP.judge(sim.root, snap0, snap1, named, mounts)
                 trashed = [o for o in outs if o.state == 'trashed']
+                lost_sight = [o for o in trashed if on_hidden(o.tdir)]
+                if lost_sight:
+                    st.probes['trashed-on-a-volume-the-listing-leaves-out'] += 1
+                    bad('put-onto-volume-the-readers-do-not-list', '%s: %r went to %s, on a volume that os.path.ismount() recognises but the '
+                        'partition listing leaves out (tmpfs, overlay, sshfs, ZFS ...): trash-list / -restore / -rm / -empty never look there'
+                        % (ctx, lost_sight[0].named.loc, lost_sight[0].tdir), kind)
+                    trashed = [o for o in trashed if not on_hidden(o.tdir)]
                 if len(added) != len(trashed):
                     bad('put-bag-delta', '%s: %d argument(s) left their place into a trash dir but the bag grew by %d (%r)'
                         % (ctx, len(trashed), len(added), added), kind)
